@@ -50,7 +50,7 @@ def generate(rep):
     seen = set()
     jobs = []
     for i, c in enumerate(cases):
-        c = {"dl": c["dl"], "cells": sorted(c["cells"]), "nchg": c["nchg"]}
+        c = {"dl": c["dl"], "refs": bool(c.get("refs")), "cells": sorted(c["cells"]), "nchg": c["nchg"]}
         k = str(c)
         if k in seen:
             continue
